@@ -352,8 +352,27 @@ pub fn corpus(seed: u64, n: usize) -> Vec<Case> {
             out.push(b.case);
         }
     }
+    // one form body, many declared charsets (folding on): whatever each label makes of the bytes, it must make the
+    // same of them every time, also while other threads are busy with other labels
+    let charset_forms: Vec<Case> = ["utf-8", "iso-8859-1", "windows-1252", "utf-16le", "shift_jis", "koi8-r", "UTF-8", "utf-16be", "gbk", "utf8"]
+        .iter()
+        .enumerate()
+        .filter_map(|(i, label)| {
+            let mut p = simple_plan(if i % 3 == 0 { crate::model::verify::Carrier::Query } else { crate::model::verify::Carrier::Header });
+            p.logical.method = "POST".into();
+            p.cfg.fold = true;
+            p.form = Some(vec![]);
+            p.ct_override = Some(format!("application/x-www-form-urlencoded; charset={}", label));
+            // raw bytes >= 0x80 in the body (valid UTF-8, and something else in every other encoding)
+            let mut base = p.base();
+            base.body = B(format!("name=caf\u{e9}&\u{fc}=v{}", i).into_bytes());
+            crate::model::sign::sign(&base, &p.cfg, &p.spec).ok().map(|signed| Case { req: signed.req, cfg: p.cfg.clone(), prov: p.provider() })
+        })
+        .collect();
     while out.len() < n {
-        if out.len() % 3 != 2 {
+        if out.len() % 7 == 3 && !charset_forms.is_empty() {
+            out.push(charset_forms[(out.len() / 7) % charset_forms.len()].clone());
+        } else if out.len() % 3 != 2 {
             let p = st_valid.new_tree(&mut runner).unwrap().current();
             if let Ok(b) = p.build() {
                 out.push(b.case);
